@@ -237,18 +237,6 @@ func (e *Exec) loopHeader(b *ssa.BasicBlock, preds []*ssa.BasicBlock) {
 		spec = ct.loops[l.ordinal]
 	}
 
-	// havoc cells written in the loop
-	roots, unknown := modifiedRoots(l)
-	if unknown {
-		// a store we cannot attribute; the store itself will be flagged when reached
-	}
-	for _, r := range roots {
-		c, ok := e.root().cells[r]
-		if !ok {
-			continue // allocated inside the loop
-		}
-		e.cur[c] = e.havoc("lh_"+c.name, e.g.sortOf(c.typ), true)
-	}
 
 	ind, init := inductionPhi(l, li)
 	nx := headerNext(l)
@@ -273,6 +261,34 @@ func (e *Exec) loopHeader(b *ssa.BasicBlock, preds []*ssa.BasicBlock) {
 			}
 		}
 		return acc
+	}
+
+	entryVals := map[*ssa.Phi]Term{}
+	for _, in := range b.Instrs {
+		phi, ok := in.(*ssa.Phi)
+		if !ok {
+			break
+		}
+		entryVals[phi] = entryVal(phi)
+	}
+	// invariants on entry are evaluated in the pre-loop state
+	var invInit []Term
+	if spec != nil {
+		for _, inv := range spec.invariant {
+			invInit = append(invInit, e.invExpr(inv.expr, b, entryVals, false))
+		}
+	}
+	// havoc cells written in the loop
+	roots, unknown := modifiedRoots(l)
+	if unknown {
+		// a store we cannot attribute; the store itself will be flagged when reached
+	}
+	for _, r := range roots {
+		c, ok := e.root().cells[r]
+		if !ok {
+			continue // allocated inside the loop
+		}
+		e.cur[c] = e.havocCell(c)
 	}
 
 	var K Term
@@ -309,11 +325,29 @@ func (e *Exec) loopHeader(b *ssa.BasicBlock, preds []*ssa.BasicBlock) {
 		e.bindNext(nx, K)
 	}
 
-	// declared invariant
+	// declared invariant: assumed at the (arbitrary) iteration, proved on entry and across every back edge
 	if spec != nil && spec.invariant != nil {
-		for _, inv := range spec.invariant {
-			t := e.contractExprHere(inv.expr)
+		cur := map[*ssa.Phi]Term{}
+		for _, in := range b.Instrs {
+			phi, ok := in.(*ssa.Phi)
+			if !ok {
+				break
+			}
+			if v, ok := e.lookup(phi); ok {
+				cur[phi] = e.asTerm(v, phi.Type())
+			}
+		}
+		for k, inv := range spec.invariant {
+			t := e.invExpr(inv.expr, b, cur, true)
 			e.assume(implies(reach, t))
+			if e.parent == nil && !e.noObl {
+				ti := invInit[k]
+				r := e.root()
+				r.obls = append(r.obls, Obligation{Name: fmt.Sprintf("%s.loop%d.inv%d.init", e.w.fnKey(e.fn), l.ordinal, k+1), Kind: "inv", Cond: reach, Goal: ti, Pos: b.Instrs[0].Pos(), Fn: e.w.fnKey(e.fn)})
+			}
+		}
+		if e.parent == nil && !e.noObl {
+			e.root().pendingInv = append(e.root().pendingInv, pendingInv{l: l, spec: spec})
 		}
 	}
 
@@ -328,9 +362,22 @@ func (e *Exec) loopHeader(b *ssa.BasicBlock, preds []*ssa.BasicBlock) {
 				ps = append(ps, "("+bv.name+" "+bv.sort+")")
 			}
 			ps = append(ps, "("+j+" Int)")
-			q := fmt.Sprintf("(forall (%s) (=> (and %s (<= %s %s) (< %s %s)) %s))", strings.Join(ps, " "), reach, initT, j, j, K, body)
+			shift := 0
+			if headerInc(l, ind) != nil {
+				shift = 1
+			}
+			lo, hi := initT, K
+			if shift == 1 {
+				lo, hi = "(+ "+initT+" 1)", "(+ "+K+" 1)"
+			}
+			q := fmt.Sprintf("(forall (%s) (=> (and %s (<= %s %s) (< %s %s)) %s))", strings.Join(ps, " "), reach, lo, j, j, hi, body)
 			e.g.assert(q)
-			e.root().summaries = append(e.root().summaries, loopSummary{l: l, K: K, init: initT, cont: cont, reach: reach, nested: len(e.bound) > 0})
+			if len(e.bound) == 0 {
+				for _, c := range e.root().goalSk {
+					e.g.assert(implies(and(reach, "(<= "+lo+" "+c+")", "(< "+c+" "+hi+")"), strings.ReplaceAll(cont, "@J@", c)))
+				}
+			}
+			e.root().summaries = append(e.root().summaries, loopSummary{l: l, K: K, init: initT, cont: cont, reach: reach, nested: len(e.bound) > 0, shift: shift})
 		}
 	}
 }
@@ -342,6 +389,7 @@ type loopSummary struct {
 	cont  Term // with @J@ placeholder for the index
 	reach Term
 	nested bool
+	shift  int // the placeholder denotes (induction value + shift)
 }
 
 // bindNext models `next` of a string range at rune ordinal k.
@@ -360,6 +408,21 @@ func (e *Exec) bindNext(nx *ssa.Next, k Term) {
 
 // contOf builds Cont(j): from the header with induction value j, control returns to the header.
 // Returned term uses the placeholder @J@ for j.  ok=false when the body depends on havocked state.
+// headerInc: the header-block instruction ind+1 (range-style loops use it as the element index).
+func headerInc(l *loop, ind *ssa.Phi) *ssa.BinOp {
+	if ind == nil {
+		return nil
+	}
+	for _, in := range l.head.Instrs {
+		if bo, ok := in.(*ssa.BinOp); ok && bo.Op == token.ADD && bo.X == ind {
+			if c, ok := bo.Y.(*ssa.Const); ok && c.Value != nil && c.Value.ExactString() == "1" {
+				return bo
+			}
+		}
+	}
+	return nil
+}
+
 func (e *Exec) contOf(l *loop, ind *ssa.Phi, nx *ssa.Next) (Term, bool) {
 	j := "@J@"
 	child := &Exec{g: e.g, w: e.w, fn: e.fn, pfx: e.pfx + "q_", parent: e, bound: append(append([]boundVar{}, e.bound...), boundVar{j, "Int"}),
@@ -369,7 +432,14 @@ func (e *Exec) contOf(l *loop, ind *ssa.Phi, nx *ssa.Next) (Term, bool) {
 	jn := e.g.fresh("jj")
 	child.bound[len(child.bound)-1].name = jn
 	if ind != nil {
-		child.vals[ind] = val{t: jn}
+		if inc := headerInc(l, ind); inc != nil {
+			// the bound variable stands for ind+1, so that element accesses are plain `a[j]` (matchable by triggers)
+			child.vals[ind] = val{t: "(- " + jn + " 1)"}
+			child.vals[inc] = val{t: jn}
+			child.prebound = map[ssa.Value]bool{inc: true}
+		} else {
+			child.vals[ind] = val{t: jn}
+		}
 	}
 	// other phis / cells havocked (tainted)
 	for _, in := range l.head.Instrs {
@@ -385,7 +455,7 @@ func (e *Exec) contOf(l *loop, ind *ssa.Phi, nx *ssa.Next) (Term, bool) {
 	roots, _ := modifiedRoots(l)
 	for _, r := range roots {
 		if c, ok := e.root().cells[r]; ok {
-			child.cur[c] = child.havoc("lh_"+c.name, e.g.sortOf(c.typ), true)
+			child.cur[c] = child.havocCell(c)
 		}
 	}
 	if nx != nil {
@@ -407,27 +477,101 @@ func (e *Exec) contOf(l *loop, ind *ssa.Phi, nx *ssa.Next) (Term, bool) {
 	return strings.ReplaceAll(cont, jn, j), true
 }
 
-// contractExprHere evaluates a loop invariant over current SSA names (by source variable name).
-func (e *Exec) contractExprHere(x *Expr) Term {
-	env := &exprEnv{e: e, g: e.g, w: e.w, pkg: e.fn.Pkg, vars: map[string]typedTerm{}}
-	for i, p := range e.fn.Params {
-		env.vars[p.Name()] = typedTerm{t: e.params[i], typ: p.Type()}
+// havocCell forgets what a loop may have written into a cell.  A cell made by `make([]T, n)` can only
+// be changed element-wise, so its length, offset and nil-ness are kept.
+func (e *Exec) havocCell(c *cell) Term {
+	srt := e.g.sortOf(c.typ)
+	if c.kind == "slice" {
+		old := e.cellGet(c)
+		et := c.typ.Underlying().(*types.Slice).Elem()
+		arr := e.havoc("lh_"+c.name, "(Array Int "+e.g.sortOf(et)+")", true)
+		return e.def("lh_"+c.name+"_s", srt, fmt.Sprintf("(mk_%s (nil_%s %s) %s (off_%s %s) (len_%s %s))", srt, srt, old, arr, srt, old, srt, old))
 	}
-	// header phis by their source comment name
-	if e.curBlock != nil {
-		for _, in := range e.curBlock.Instrs {
-			if phi, ok := in.(*ssa.Phi); ok && phi.Comment != "" {
-				if v, ok := e.lookup(phi); ok {
-					env.vars[phi.Comment] = typedTerm{t: e.asTerm(v, phi.Type()), typ: phi.Type()}
-				}
+	return e.havoc("lh_"+c.name, srt, true)
+}
+
+type pendingInv struct {
+	l    *loop
+	spec *loopSpec
+}
+
+// invExpr evaluates a loop invariant; loop-carried variables are named by their source names.
+func (e *Exec) invExpr(x *Expr, head *ssa.BasicBlock, phiVals map[*ssa.Phi]Term, asAssumption bool) Term {
+	env := &exprEnv{e: e, g: e.g, w: e.w, pkg: e.fn.Pkg, vars: map[string]typedTerm{}}
+	if env.pkg == nil && e.fn.Origin() != nil {
+		env.pkg = e.fn.Origin().Pkg
+	}
+	if asAssumption {
+		env.instAt = e.root().goalSk
+	} else {
+		env.goalSk = e.root().goalSk
+	}
+	for i, p := range e.fn.Params {
+		env.vars[p.Name()] = typedTerm{t: e.root().params[i], typ: p.Type()}
+	}
+	// single-assignment locals by their source names (current contents for cell-backed ones)
+	for name, v := range e.w.localNames(e.fn) {
+		if _, isParam := env.vars[name]; isParam {
+			continue
+		}
+		if _, isPhi := v.(*ssa.Phi); isPhi {
+			continue
+		}
+		if x, ok := e.lookup(v); ok {
+			if x.fn != nil || len(x.tup) > 0 {
+				continue
+			}
+			env.vars[name] = typedTerm{t: e.peekTerm(x, v.Type()), typ: v.Type()}
+		}
+	}
+	for _, in := range head.Instrs {
+		if phi, ok := in.(*ssa.Phi); ok && phi.Comment != "" {
+			if t, ok := phiVals[phi]; ok {
+				env.vars[phi.Comment] = typedTerm{t: t, typ: phi.Type()}
 			}
 		}
 	}
-	tt := env.tr(x)
+	var tt typedTerm
+	if asAssumption {
+		tt = env.tr(x)
+	} else {
+		tt = env.trGoal(x)
+	}
 	if env.err != "" {
 		e.unsupported("loop invariant: " + env.err)
 	}
 	return tt.t
+}
+
+// finishInvariants emits the preservation obligations (called after all blocks are translated).
+func (e *Exec) finishInvariants() {
+	for _, pi := range e.pendingInv {
+		l := pi.l
+		for _, lt := range l.latches {
+			vals := map[*ssa.Phi]Term{}
+			for _, in := range l.head.Instrs {
+				phi, ok := in.(*ssa.Phi)
+				if !ok {
+					break
+				}
+				for i, p := range l.head.Preds {
+					if p == lt {
+						vals[phi] = e.term(phi.Edges[i])
+					}
+				}
+			}
+			saved := e.cur
+			e.cur = map[*cell]Term{}
+			for c, t := range e.cellsOut[lt] {
+				e.cur[c] = t
+			}
+			defer func() { e.cur = saved }()
+			for k, inv := range pi.spec.invariant {
+				t := e.invExpr(inv.expr, l.head, vals, false)
+				e.obls = append(e.obls, Obligation{Name: fmt.Sprintf("%s.loop%d.inv%d.step@%d", e.w.fnKey(e.fn), l.ordinal, k+1, lt.Index), Kind: "inv", Cond: e.edgeCond(lt, l.head), Goal: t, Pos: l.head.Instrs[0].Pos(), Fn: e.w.fnKey(e.fn)})
+			}
+		}
+	}
 }
 
 var _ = types.Typ
